@@ -81,7 +81,9 @@ def body():
         if not res.ok:
             chk.violation("spec:" + str(res.violated), "TLC: SpaceModel violates %s\n%s" % (res.violated, "\n".join(res.trace[-2:])), {"cfg": kw})
             continue
-        chk.require_coverage(res, ACTIONS)
+        need = [a for a in ACTIONS if not ((a == "StartDP" and not {"DP0", "DP1"} & set(kw["kinds"])) or (a == "StartP1" and "P1" not in kw["kinds"])
+                                           or (a in ("StartRWG", "RWGEdgeStep", "RWGElemEnd", "RWGFinish") and "RWG" not in kw["kinds"]))]
+        chk.require_coverage(res, need)
         for ob in res.obligations:
             n += 1
             gkey = (ob["base"], tuple(ob["sub"]), ob["rot"])
